@@ -390,6 +390,9 @@ def aesfail_component():
              "FIPS-197 / SP 800-38A output, nothing else; a third of the ops hand the library blocks that are 8 mod 16 aligned; non-trivial = a failure is injected",
         monitor_args=["aesfailmon"], ignore_l2=True, ldflags=["-Wl,--wrap=malloc,--wrap=free", "-lcrypto"],
         extra=[os.path.join(vlib.VERIF, "harness", "h_aesfail_ctr.c")],
+        # black-box mode (notes/blackbox.md): crypto_aes.c / crypto_aesctr.c as separate units; h_aesfail.c then runs every op
+        # in a forked child, which is the fresh dispatch state the white-box build gets by resetting `hwaccel`
+        bb_ok=True, bb_srcs=["crypto/crypto_aes.c", "crypto/crypto_aesctr.c"],
         classify=lambda case, out: ["aesfail:" + ("fail" if o.startswith("fail") else "ct") for o in out])
 
 
